@@ -218,6 +218,9 @@ def census(fn: ast.FunctionDef, self_name: str) -> tuple[list, list, list]:
         if isinstance(n, (ast.For, ast.comprehension)) and isinstance(n.target, ast.Name) \
                 and _root_name(n.iter) in tree_names:
             tree_names.add(n.target.id)
+    write_aliases = {n.targets[0].id for n in ast.walk(fn)
+                     if isinstance(n, ast.Assign) and len(n.targets) == 1 and isinstance(n.targets[0], ast.Name)
+                     and isinstance(n.value, ast.Attribute) and n.value.attr == 'write' and _root_name(n.value) not in tree_names}
     stores, muts, info = [], [], []
     for n in ast.walk(fn):
         tgts = []
@@ -264,7 +267,11 @@ def census(fn: ast.FunctionDef, self_name: str) -> tuple[list, list, list]:
                         if isinstance(a, ast.Name) and a.id in tree_names:
                             raise _err(n, f'tree object passed to {ast.unparse(f)}')
             elif isinstance(f, ast.Name):
-                if f.id not in PURE_FUNCS and not _pure_helper(f.id):
+                if f.id in write_aliases:       # `w = file.write; w(text)`: a write to the file, as `file.write(text)` is
+                    for a in list(n.args) + [k.value for k in n.keywords]:
+                        if isinstance(a, ast.Name) and a.id in tree_names:
+                            raise _err(n, f'tree object passed to {f.id}')
+                elif f.id not in PURE_FUNCS and not _pure_helper(f.id):
                     raise _err(n, f'unclassified call {f.id}()')
             else:
                 raise _err(n, 'unclassified call expression')
@@ -590,13 +597,33 @@ def tr_inner(fn: ast.FunctionDef):
     def is_self_attr(n, attr):
         return isinstance(n, ast.Attribute) and n.attr == attr and _is_name(n.value, self_name)
 
+    # `w = file.write` (hoisted attribute lookup): a call of `w` is a call of `file.write`
+    write_aliases = {n.targets[0].id for n in ast.walk(fn)
+                     if isinstance(n, ast.Assign) and len(n.targets) == 1 and isinstance(n.targets[0], ast.Name)
+                     and isinstance(n.value, ast.Attribute) and n.value.attr == 'write' and _is_name(n.value.value, file_name)}
+    for n in ast.walk(fn):      # such a name must not be bound to anything else
+        if isinstance(n, (ast.Assign, ast.AugAssign, ast.AnnAssign, ast.For)):
+            tg = n.targets if isinstance(n, ast.Assign) else [n.target]
+            for t in tg:
+                for nm in ast.walk(t):
+                    if isinstance(nm, ast.Name) and nm.id in write_aliases and not (
+                            isinstance(n, ast.Assign) and isinstance(n.value, ast.Attribute) and n.value.attr == 'write'
+                            and _is_name(n.value.value, file_name)):
+                        raise _err(n, f'{nm.id} is bound to file.write and to something else')
+
     def write_arg(s):
-        if isinstance(s, ast.Expr) and isinstance(s.value, ast.Call) and isinstance(s.value.func, ast.Attribute) \
-                and s.value.func.attr == 'write' and _is_name(s.value.func.value, file_name):
+        if isinstance(s, ast.Expr) and isinstance(s.value, ast.Call) and (
+                (isinstance(s.value.func, ast.Attribute) and s.value.func.attr == 'write'
+                 and _is_name(s.value.func.value, file_name))
+                or (isinstance(s.value.func, ast.Name) and s.value.func.id in write_aliases)):
             if len(s.value.args) != 1 or s.value.keywords:
                 raise _err(s, 'file.write with other than one argument')
             return s.value.args[0]
         return None
+
+    def is_alias_def(s) -> bool:
+        return isinstance(s, ast.Assign) and len(s.targets) == 1 and isinstance(s.targets[0], ast.Name) \
+            and s.targets[0].id in write_aliases
 
     def child_loop(s):
         """for child in self._value: child._serialise(file, indent, open_brace, close_brace, X) -> pieces of X"""
@@ -650,6 +677,8 @@ def tr_inner(fn: ast.FunctionDef):
                 continue
             if isinstance(s, ast.Expr) and isinstance(s.value, ast.Constant):
                 continue
+            if is_alias_def(s):
+                continue
             w = write_arg(s)
             if w is not None:
                 ps = fs.pieces(w)
@@ -674,7 +703,8 @@ def tr_inner(fn: ast.FunctionDef):
             raise _err(s, f'unrecognised statement in _serialise: {type(s).__name__}')
         return pre, loop, post, instrs
 
-    body = norm_tail([s for s in _strip_doc(fn.body) if not (isinstance(s, ast.AnnAssign) and s.value is None)])
+    body = norm_tail([s for s in _strip_doc(fn.body) if not (isinstance(s, ast.AnnAssign) and s.value is None)
+                      and not is_alias_def(s)])
     # stores / mutating calls in front of the branches belong to every branch
     prefix = []
     while len(body) > 1 and store_kind(body[0]) is not None:
